@@ -1098,6 +1098,10 @@ def translate_function(mod, fname):
     for p in known:
         if p not in declared:
             fail(f, 'schema parameter %s not in source' % p)
+    # positional callers rely on the order: the schema lists the parameters in the source's order
+    order = [p for p in list(spec.get('params', {})) if p in declared]
+    if order != [p for p in declared if p in spec.get('params', {})]:
+        fail(f, 'parameters are declared in the order %s, schema says %s' % ([p for p in declared if p in spec.get('params', {})], order))
     if f.args.vararg or f.args.kwarg or f.args.kwonlyargs:
         fail(f, 'varargs')
     # defaults must match the ones the schema records (call sites rely on them)
